@@ -16,6 +16,7 @@ type dnode struct {
 	attrs      string
 	core       string // the attributes the Lean compile model has
 	cfg        bool
+	opd        bool // an opd:command / opd:option / opd:argument node (outside the Lean compile model)
 	kids       []*dnode
 }
 
@@ -57,6 +58,10 @@ func underChoice(p schema.Node, name string) bool {
 
 func dumpOf(n schema.Node) *dnode {
 	d := &dnode{kind: kindOf(n), name: n.Name(), cfg: n.Config()}
+	switch n.(type) {
+	case schema.OpdCommand, schema.OpdArgument, schema.OpdOption:
+		d.opd = true
+	}
 	var a []string
 	a = append(a, "ns="+n.Namespace(), "mod="+n.Module(), fmt.Sprintf("cfg=%v", n.Config()), "st="+n.Status().String())
 	switch v := n.(type) {
@@ -153,6 +158,9 @@ func (d *dnode) render(b *strings.Builder, ind string) {
 }
 
 func (d *dnode) renderCore(b *strings.Builder, ind string) {
+	if d.opd {
+		return
+	}
 	b.WriteString(ind + d.kind + " " + d.name + " " + d.core + "\n")
 	for _, k := range d.kids {
 		k.renderCore(b, ind+" ")
@@ -172,7 +180,7 @@ func (d *dnode) String() string {
 }
 
 func (d *dnode) prune(keep func(*dnode) bool) *dnode {
-	out := &dnode{kind: d.kind, name: d.name, attrs: d.attrs, core: d.core, cfg: d.cfg}
+	out := &dnode{kind: d.kind, name: d.name, attrs: d.attrs, core: d.core, cfg: d.cfg, opd: d.opd}
 	for _, k := range d.kids {
 		if keep(k) {
 			out.kids = append(out.kids, k.prune(keep))
@@ -191,17 +199,36 @@ type namedFilter struct {
 	keep func(*dnode) bool
 }
 
+// every node is exactly one of: configuration, operational state (config false, not opd), operational command
 var filters = []namedFilter{
 	{"config", compile.IsConfig, func(d *dnode) bool { return d.cfg }},
-	{"state", compile.IsState, func(d *dnode) bool { return !d.cfg }},
-	{"excl-state", compile.Exclude(compile.IsState), func(d *dnode) bool { return d.cfg }},
+	{"state", compile.IsState, func(d *dnode) bool { return !d.cfg && !d.opd }},
+	{"excl-state", compile.Exclude(compile.IsState), func(d *dnode) bool { return d.cfg || d.opd }},
 	{"excl-config", compile.Exclude(compile.IsConfig), func(d *dnode) bool { return !d.cfg }},
-	{"config+state", compile.Include(compile.IsConfig, compile.IncludeState(true)), func(d *dnode) bool { return true }},
-	{"config+nostate", compile.Include(compile.IsConfig, compile.IncludeState(false)), func(d *dnode) bool { return d.cfg }},
-	{"config-or-state", compile.IsConfigOrState(), func(d *dnode) bool { return true }},
-	{"opd", compile.IsOpd, func(d *dnode) bool { return false }},
-	{"excl-opd", compile.Exclude(compile.IsOpd), func(d *dnode) bool { return true }},
+	{"config+state", compile.Include(compile.IsConfig, compile.IncludeState(true)), func(d *dnode) bool { return !d.opd }},
+	{"config+nostate", compile.Include(compile.IsConfig, compile.IncludeState(false)), func(d *dnode) bool { return d.cfg || d.opd }},
+	{"config-or-state", compile.IsConfigOrState(), func(d *dnode) bool { return !d.opd }},
+	{"opd", compile.IsOpd, func(d *dnode) bool { return d.opd }},
+	{"excl-opd", compile.Exclude(compile.IsOpd), func(d *dnode) bool { return !d.opd }},
 	{"none", compile.Include(), func(d *dnode) bool { return false }},
+	{"nostate", compile.IncludeState(false), func(d *dnode) bool { return d.cfg || d.opd }},
+	{"opd+state", compile.Include(compile.IsOpd, compile.IsState), func(d *dnode) bool { return !d.cfg }},
+	{"excl-opd-state", compile.Exclude(compile.IsOpd, compile.IsState), func(d *dnode) bool { return d.cfg }},
+}
+
+const opdExtModule = `module vyatta-opd-extensions-v1 { namespace "urn:vyatta.com:mgmt:vyatta-opd-extensions:1"; prefix opd;
+  extension command { argument text; } extension option { argument text; } extension argument { argument text; } }`
+
+// an operational-command subtree at the top of module m
+func renderOpd(v int) string {
+	s := "  opd:command show" + fmt.Sprint(v) + " {\n    opd:command version { description \"v\"; }\n"
+	if v%2 == 0 {
+		s += "    opd:option level { type string; }\n"
+	}
+	if v%3 != 0 {
+		s += "    opd:command sub { opd:argument what { type string; } }\n"
+	}
+	return s + "  }\n"
 }
 
 func genYFilterCase(r *Rng, tier string) Case {
@@ -210,7 +237,11 @@ func genYFilterCase(r *Rng, tier string) Case {
 		g.maxDepth = 2 + r.Intn(3)
 	}
 	top := g.genKids(0, false)
-	return Case{"k": "yfilter", "top": top}
+	c := Case{"k": "yfilter", "top": top}
+	if r.Chance(40) { // operational commands next to the data nodes
+		c["opd"] = 1 + r.Intn(6)
+	}
+	return c
 }
 
 func genYFilter(r *Rng, tier string, n int, emit func(Case)) {
@@ -237,9 +268,13 @@ func errClass(err error) string {
 }
 
 func runYFilter(c Case) string {
-	text := renderSchema(carr(c, "top"))
+	texts := []string{renderSchema(carr(c, "top"))}
+	if v := cint(c, "opd"); v > 0 {
+		texts[0] = strings.Replace(texts[0], "prefix m;\n", "prefix m; import vyatta-opd-extensions-v1 { prefix opd; }\n"+renderOpd(v), 1)
+		texts = append(texts, opdExtModule)
+	}
 	var out []string
-	ms, err := compileAll(text)
+	ms, err := compileAll(texts...)
 	if err != nil {
 		out = append(out, "all:"+errClass(err))
 	} else {
@@ -250,7 +285,7 @@ func runYFilter(c Case) string {
 		full = dumpModelSet(ms)
 	}
 	for _, nf := range filters {
-		fms, ferr := compileTexts(nf.f, text)
+		fms, ferr := compileTexts(nf.f, texts...)
 		switch {
 		case ferr != nil && err != nil:
 			if errClass(ferr) == errClass(err) {
